@@ -271,6 +271,24 @@ func (r *committedReader) readLoop(
 LOOP:
 	for {
 		lim := int64(len(p[n:]))
+		if r.seg != r.hwSeg && r.hwSeg != nil && r.seg.BaseOffset == r.hwSeg.BaseOffset {
+			// The segment in which the HW position was resolved has since been
+			// replaced (by a truncation or by compaction) and we are about to
+			// read from its replacement. Resolve the HW position again,
+			// otherwise the check below never matches and nothing limits this
+			// reader to the HW anymore.
+			var (
+				hwIdx int
+				hwPos int64
+			)
+			segments = r.cl.Segments()
+			hwIdx, hwPos, err = getHWPos(segments, r.hw)
+			if err != nil {
+				break
+			}
+			r.hwPos = hwPos
+			r.hwSeg = segments[hwIdx]
+		}
 		if r.seg == r.hwSeg {
 			// If we're reading from the HW segment, read up to the HW pos.
 			lim = min(lim, r.hwPos-r.pos)
